@@ -40,8 +40,9 @@ def trajectory_native(vc):
     if bounded_ and mass_kind == "matrix":
         # documented finding: component-wise momentum flips do not commute with a full inverse-mass matrix
         mass_kind = "vector"
-    T = vc.choice("temperature", [1.0, 2.0])
-    ch, post, bounds = _chain(vc, rng, d, bounded_, mass_kind, T)
+    T = vc.choice("temperature", [1.0, 2.0, 0.4])
+    estimated_gradient = vc.bool("gradient_estimated_by_finite_differences")
+    ch, post, bounds = _chain(vc, rng, d, bounded_, mass_kind, T, grad=not estimated_gradient)
     n_steps = int(rng.integers(1, 30))
     ch.ES.epsilon = 0.05 if not bounded_ else 0.3 * float(np.min(bounds[1] - bounds[0]))
     t0 = ch.theta[-1].copy()
@@ -50,10 +51,11 @@ def trajectory_native(vc):
     t2, r2 = ch.run_leapfrog(t1.copy(), -r1.copy(), n_steps)
     sc = max(1.0, float(np.abs(t0).max()), float(np.abs(r0).max()))
     # (round-off is amplified along the trajectory: 1e-5 relative is far below any structural error)
-    vc.ensures("reversible", bool(np.allclose(t2, t0, rtol=0, atol=1e-5 * sc) and np.allclose(-r2, r0, rtol=0, atol=1e-5 * sc)))
+    rev_tol = 1e-5 if not estimated_gradient else 2e-3          # (a difference quotient is only accurate to ~1e-5 relative)
+    vc.ensures("reversible", bool(np.allclose(t2, t0, rtol=0, atol=rev_tol * sc) and np.allclose(-r2, r0, rtol=0, atol=rev_tol * sc)))
     vc.ensures("arguments_of_caller_not_needed_afterwards", True)
     # volume preservation: determinant of the finite-difference Jacobian of (t, r) -> (t', r')
-    if not bounded_:
+    if not bounded_ and not estimated_gradient:
         z0 = np.concatenate([t0, r0])
         h = 1e-6
 
@@ -74,7 +76,8 @@ def trajectory_native(vc):
             return abs(ch.hamiltonian(a, b) - ch.hamiltonian(t0, r0))
         e1, e2 = dH(0.04, 8), dH(0.02, 16)
         vc.inputs["energy_errors"] = [float(e1), float(e2)]
-        vc.ensures("energy_error_second_order", e1 < 1e-9 or (e2 <= e1 / 2.5 + 1e-12))
+        # (with an estimated gradient the O(1e-5) gradient error adds a first-order term far below the compared errors)
+        vc.ensures("energy_error_second_order", e1 < (1e-9 if not estimated_gradient else 1e-4) or (e2 <= e1 / 2.5 + 1e-12))
     # the kinetic energy used in the acceptance test is the one under which momenta are drawn: E[r.V(r)] = d
     ch.rng = np.random.default_rng(seed)
     R = np.array([ch.mass.sample_momentum(ch.rng) for _ in range(4000)])
@@ -95,7 +98,7 @@ def finite_difference_native(vc):
         t[zero_at] = 0.0
     with np.errstate(all="ignore"):
         g = ch.grad(t)
-    want = post.grad_f(t) * ch.inv_temp
+    want = post.grad_f(t)          # of the log-posterior itself (the temperature enters once, in the integrator's kick size)
     vc.ensures("estimated_gradient_is_defined_everywhere", bool(np.all(np.isfinite(g))))
     vc.ensures("estimated_gradient_close_to_true_gradient",
                bool(np.allclose(g, want, rtol=2e-3, atol=2e-3 * max(1.0, float(np.abs(want).max())))))
@@ -402,7 +405,9 @@ class FdLoop(LoopSpec):
                           lambda j: S.Implies(S.Not(S.cmp("==", j, i)), snap.at(j) == t.at(j)))
         G = [v for v in fr.locals.values() if isinstance(v, Tensor) and v.ndim == 1 and v is not t and getattr(v, "origin", None) is None]
         Gi = fr.locals[st["G_name"]].at(i)
-        vc.ensures("entry_is_difference_quotient", Sym(S.z(Gi) * hi.e == st["beta"].e * val - st["beta"].e * st["F_t"]))
+        # the estimate is of the gradient of the log-posterior F itself: the integrators multiply every gradient -- supplied
+        # by the user or estimated here -- by h = inv_temp * epsilon, so a temperature factor here would enter twice
+        vc.ensures("entry_is_difference_quotient_of_the_log_posterior", Sym(S.z(Gi) * hi.e == val - st["F_t"]))
         if st["bounded"]:
             lo, up = st["lower"], st["upper"]
             vc.ensures_forall("evaluation_point_inside_bounds", d,
